@@ -473,4 +473,11 @@ def r5_equality(ctx):
             ctx.fail(ci.qual + ".__eq__", "unreviewed override of __eq__", where=ci, node=ci.methods["__eq__"].node)
 
 
-RULES = [r1_who_may_write, r2_rejected_assignment_keeps_content, r3_type_tables, r4_reading_empty_raises, r5_equality]
+def r6_reset_really_empties(ctx):
+    """"Reading an empty container raises instead of returning stale data": Detector.empty(reset) empties photon, charge, signal and image on every path whatever `reset` is (only the pixel bucket depends on it), and each bucket's empty() really drops its array (shared with C02.R5)."""
+    from props.C02 import r5_what_empty_empties
+
+    r5_what_empty_empties(ctx)
+
+
+RULES = [r6_reset_really_empties, r1_who_may_write, r2_rejected_assignment_keeps_content, r3_type_tables, r4_reading_empty_raises, r5_equality]
